@@ -120,3 +120,20 @@ Theorem C06_json_output_is_a_fixed_point_with_floats :
     json_of_docs json_f64 (fst (json_reader (jwrite_docs json_f64 js))) = Some (jwrite_docs json_f64 js) /\
     json_of_docs json_f64 (fst (json_slice (jwrite_docs json_f64 js))) = Some (jwrite_docs json_f64 js).
 Proof. exact (json_output_is_a_fixed_point json_f64 f_finite json_f64_reads_all json_f64_head_all). Qed.
+
+(* Idempotence of JSON -> JSON for EVERY input, on the models alone
+   (theories/JsonIdemProofs.v): whatever text the reader model reads - any
+   spelling, any spacing, escapes, exponents, repeated keys - is the event list of
+   values the writer model can write (integers within 64 bits, finite floats,
+   valid UTF-8, nesting below the limit), so the fixed-point theorem applies to
+   it: translating xt's JSON output again reproduces it byte for byte, and the
+   output reads back to exactly the events the input was read to. *)
+From XtModel Require Import JsonIdemProofs.
+
+Theorem C06_json_to_json_idempotent_for_every_input :
+  forall inp o : bytes, json_to_json_f inp = Some o -> json_to_json_f o = Some o.
+Proof. exact json_to_json_idempotent. Qed.
+
+Theorem C06_json_to_json_keeps_the_events :
+  forall inp o : bytes, json_to_json_f inp = Some o -> fst (json_slice o) = fst (json_slice inp).
+Proof. exact json_to_json_keeps_events. Qed.
